@@ -68,6 +68,8 @@ func genC15(seed uint64, idx int, tier string) interface{} {
 		pl.Input = big
 	case r.Bool(0.04):
 		pl.Input = GenLongInput(ir, v)
+	case r.Bool(0.012):
+		pl.Input = GenGiantToken(ir, v)
 	case r.Bool(0.5):
 		pl.Input = GenInput(ir, v, 4)
 	default:
@@ -485,9 +487,14 @@ func runC15(planJSON []byte) (*RunResult, error) {
 	scheds := pl.Schedules
 	big := len(in) > 32768 // stdin-sized inputs exist for the CLI probes; keep the library part light
 	if big {
-		scheds = scheds[:2]
+		if len(scheds) > 2 {
+			scheds = scheds[:2]
+		}
 		writers = []string{"plain"}
 		res.count("big_inputs", 1)
+		if len(in) > 262144 {
+			res.count("inputs_over_256KiB", 1)
+		}
 	}
 	for _, s := range scheds {
 		compare(C15Probe{Entry: "SanitizeReader", Read: s, Trunc: -1})
